@@ -7,9 +7,9 @@ from common import Driver, DriverFailure, hx
 
 LEVEL = "proof"
 MANIFEST = dict(
-    text="Lean 4 theorems over ALL field values (Python ints as Int, arbitrary byte strings and lists): a constructor returns exactly for the in-range values (inRange_iff_encodes); for every one of the 27 message forms the content the constructor produces is decoded by every handler class meant for it to exactly the fields it was built from (roundtrip, via a generic struct pack/unpack inversion over the format strings read from the source; STATP records, reminders with signed days, FILES text for every shipped platform name and every pair of version numbers); each content is accepted by exactly the handler class(es) of its verb among the standard classes and each datagram by exactly the hello / packet handler (claimed_by_exactly_partial, datagram_claimed, verbs_prefix_free); the one regex of _extract_packet_parts is modelled as a backtracking matcher and framing round-trips for arbitrary payloads under the repaired (lazy, lazy, greedy) pattern (frame_roundtrip_lazy), for payloads without </DESCN><DATAS> under the current all-greedy one (frame_roundtrip_partial), with reply addressing swapped (reply_swaps_partial); hello round trip incl. names containing '|' under split(b'|',1) (hello_roundtrip_split1) and without '|' under the current split (hello_roundtrip_partial). The three statements that are false for the current source (D2, D3, D4) have kernel-checked witnesses and are confirmed on the real code by the search. The model reproduces all 83 byte vectors of tests/test_protocol.py (pinned_encode / pinned_decode / pinned_claims, re-extracted every run).",
-    note="Trusted: Lean kernel; harness/gen_c04.py (verbs, tags, struct formats per call site, can_handle verb lists, regex literals + greediness, hello split arity, literal payloads: read from the source by ast); the hand-written slices / branch order / exception kinds of Model/Wire.lean and the backtracking reading of Python's re are tied to the code by a differential correspondence (real constructors' send_bytes, real handle(), every can_handle, the real regex on an adversarial delimiter corpus). latin-1 = identity on 0..255 is exercised, not proved. Layout oracle = the repository's own pinned test vectors. int() inputs with signs/underscores/whitespace are out of model (skipped, counted).",
-    technique="Lean 4 proofs by cases over an inductive message type + generic struct inversion + explicit backtracking-regex model; source-translated formats; differential correspondence; encoder∘decoder search on the real code",
+    text="Lean 4 theorems over ALL field values (Python ints as Int, arbitrary byte strings and lists). (1) a constructor returns exactly for the in-range values, everything else raises (inRange_iff_encodes, encode_rejects). (2) for every one of the 24 packet message forms the content the constructor produces is decoded, by every handler class meant for it, to exactly the fields it was built from (roundtrip: generic struct pack/unpack inversion over the format strings read from the source; statp_roundtrip; reminders_roundtrip with signed days; files_roundtrip for every shipped platform name and EVERY pair of version numbers); hello forms likewise (hello_*_roundtrip). (3) each content is accepted by exactly the handler class(es) of its verb among the standard classes, each datagram by exactly the hello / packet handler, verbs pairwise prefix-free (claimed_by_exactly_partial, datagram_claimed, verbs_prefix_free). (4) the one regex of _extract_packet_parts is modelled as a backtracking matcher (leftmost start, greedy/lazy groups): framing round-trips for ARBITRARY payload bytes under the repaired (lazy, lazy, greedy) pattern (frame_roundtrip_lazy) and for payloads without </DESCN><DATAS> under the all-greedy one (frame_roundtrip_greedy); replies are addressed back with source and destination swapped (reply_swaps_partial); sender-to-receiver composition (wire_roundtrip_partial). (5) the model reproduces all 83 byte vectors of tests/test_protocol.py (pinned_encode / pinned_decode / pinned_claims, re-extracted every run). The three statements that are false for the current source (D2 hello name with '|', D3 payload with delimiter run, D4 SETWC/WCREQ unclaimed) have kernel-checked witnesses, are confirmed on the real code by the search, and their theorems carry a hypothesis guarded by a Boolean computed from the source (helloNeedsCleanName, regexNeedsCleanPayload, Msg.orphan) with proofs covering both the current and the repaired source, so they become the full statements when a fix lands.",
+    note="Trusted: Lean kernel; harness/gen_c04.py (verbs, tags, struct formats per call site, can_handle verb lists, regex literals + greediness, hello split arity, literal payloads, platform names, test vectors: read from the source by ast; shapes outside the expected ones are refused); the hand-written slices / branch order / exception kinds of Model/Wire.lean and the backtracking reading of Python's re are tied to the code by a differential correspondence (real constructors' send_bytes, real handle(), every can_handle of every class, the real regex on an adversarial delimiter corpus, a malformed stream). latin-1 = identity on 0..255 is exercised, not proved. Layout oracle = the repository's own captured test vectors. int() inputs with signs/underscores/whitespace are out of model (skipped, counted). Identifiers are assumed free of '<'; STATP lists of the shape the 4-byte-record decoder reads; reminder types in GeckoReminderType.",
+    technique="Lean 4 proofs by cases over an inductive message type + generic struct inversion + explicit backtracking-regex model; source-translated formats/verbs/regex shape; differential correspondence; encoder-decoder composition search on the real code",
     design="5/C04",
 )
 
@@ -328,7 +328,7 @@ def g_payload(rng, maxlen=255, delim=0.25):
     while total < n:
         k = rng.random()
         if k < delim:
-            piece = rng.choice(TAGS + [L1, L2, L1 + b"x" + L2, b"|", b"'", b'"', b"\n", b"\r\n", b"\x00", b".xml", b",", b"_"]
+            piece = rng.choice(TAGS + [L1, L2, L1 + b"x" + L2] * 4 + [b"|", b"'", b'"', b"\n", b"\r\n", b"\x00", b".xml", b",", b"_"]
                                + list(VERB.values()))
         elif k < delim + 0.2:
             piece = bytes([rng.choice([0, 10, 13, 60, 62, 47, 124, 255, 128, 34, 39])])
@@ -958,6 +958,10 @@ def run(ctx):
         search_files_all(ctx)
     ctx.cov["distinct_nontrivial"] = len(seen)
     ctx.cov["exhaustive"] = False
+    ctx.log("forms hit (correspondence):", len(ctx.cov.get("forms", {})), "of", len(FORMS), "| error kinds:", ctx.cov.get("error_kinds"),
+            "| payloads with a delimiter run:", ctx.cov.get("payloads_with_delimiter_run"), "| correspondence ops:",
+            ctx.cov.get("correspondence_ops"), "disagreements:", ctx.cov.get("correspondence_disagreements"),
+            "| search messages:", ctx.cov.get("search_messages"), "distinct classes:", len(seen))
     ctx.cov["rule"] = ("search: the four canonical defect inputs, every form at the corners of its integer fields, every shipped platform name, then a seeded "
                        "type-directed stream over the 27 forms restricted to the property's domain (in-range fields, GeckoReminderType values, STATP record "
                        "shapes the decoder is specified for, '<'-free identifiers; names and payloads arbitrary bytes with tags/verbs/newlines/NULs/'|' "
